@@ -82,6 +82,17 @@ def generate(tier, rng):
         if not dy and st is not None and st % K:
             st += K - st % K              # whole samples at the non-dyadic rates
         cases.append({"op": "zc", "w": w, "rate": rate, "s": s, "t": t, "st": st, "file": rng.random() < 0.3, "scale": ["ticks", K]})
+    # long searches: a recording of a second or so with a DC offset (no crossing, or one far from the target) and a step
+    # of two or three samples -- hundreds of rounds of widening before the answer
+    for _ in range(8 if tier == "quick" else 200):
+        w, rate = 2, rng.choice(RATES_DY)
+        n = rng.randint(700, 1300)
+        s = [rng.randint(1, 900) for _ in range(n)]
+        if rng.random() < 0.6:
+            k = rng.choice([0, 1, n - 1, n - 2, rng.randrange(n)])
+            s[k] = -5
+        cases.append({"op": "zc", "w": w, "rate": rate, "s": s, "t": rng.choice([n // 2, n // 3, 5, n - 5]) * K, "st": rng.choice([2 * K, 3 * K, 2 * K + 2]),
+                      "file": rng.random() < 0.3, "scale": ["ticks", K]})
     # histories on one Wav object: search, edit the audio in place (also without changing its length), search again
     for _ in range(200 if tier == "quick" else 5000):
         w = rng.choice([1, 2, 4])
